@@ -4,6 +4,9 @@
   Written from the RFC text; the hash inside HMAC is a parameter.
     x  = int2octets(private key)  (32 bytes)
     h1 = bits2octets(H(m))        (32 bytes; equals the message hash itself when int(hash) < q)
+  The functions below take `h1` as a parameter. Props.C03.rfc6979_matches applies them to the message
+  hash bytes UNREDUCED — that is libsecp256k1's variant of §3.2 (no bits2octets), identical to the RFC
+  when int(hash) < q and different from it when int(hash) ≥ q.
 -/
 import GocoinV.Base.C03_Hmac
 import GocoinV.Base.Secp
